@@ -302,29 +302,49 @@ Proof.
   apply andb_true_iff in E. destruct E as [E1 E2]. apply Qleb_true in E1, E2. unfold slack in *. right. lra.
 Qed.
 
-(* ---- a second call on the same object (district heating): series recomputed, count carried over ---- *)
+(* ---- a second call on the same object (district heating) ---- *)
+
+(* repaired code: whatever count an earlier call left, the result is that of a fresh call *)
+Theorem redrill_call_fresh prev P T maxdd : redrill_call prev P T maxdd = redrill P T maxdd.
+Proof. reflexivity. Qed.
+
+Theorem redrill_call_count prev P T maxdd :
+  rd_count (redrill_call prev P T maxdd) = rd_count (redrill P T maxdd) /\
+  (index_of P maxdd = 0%nat -> rd_count (redrill_call prev P T maxdd) = 0%nat).
+Proof.
+  split. reflexivity. intros E. unfold redrill_call. rewrite redrill_unchanged by assumption. reflexivity.
+Qed.
 
 Theorem redrill_call_series prev P T maxdd :
   rd_P (redrill_call prev P T maxdd) = rd_P (redrill P T maxdd) /\
   rd_T (redrill_call prev P T maxdd) = rd_T (redrill P T maxdd) /\
   rd_index (redrill_call prev P T maxdd) = rd_index (redrill P T maxdd).
+Proof. repeat split. Qed.
+
+(* pinned code (before fix 825a507): series recomputed, count carried over *)
+Theorem redrill_call_pinned_series prev P T maxdd :
+  rd_P (redrill_call_pinned prev P T maxdd) = rd_P (redrill P T maxdd) /\
+  rd_T (redrill_call_pinned prev P T maxdd) = rd_T (redrill P T maxdd) /\
+  rd_index (redrill_call_pinned prev P T maxdd) = rd_index (redrill P T maxdd).
 Proof.
-  unfold redrill_call. cbv zeta. destruct (Nat.eqb_spec (rd_index (redrill P T maxdd)) 0) as [E|E]; cbn; auto.
+  unfold redrill_call_pinned. cbv zeta. destruct (Nat.eqb_spec (rd_index (redrill P T maxdd)) 0) as [E|E]; cbn; auto.
 Qed.
 
-Theorem redrill_call_count_partial prev P T maxdd : prev = 0%nat \/ index_of P maxdd <> 0%nat ->
-  rd_count (redrill_call prev P T maxdd) = rd_count (redrill P T maxdd).
+Theorem redrill_call_pinned_count_partial prev P T maxdd : prev = 0%nat \/ index_of P maxdd <> 0%nat ->
+  rd_count (redrill_call_pinned prev P T maxdd) = rd_count (redrill P T maxdd).
 Proof.
-  intros H. unfold redrill_call. cbv zeta. rewrite redrill_index.
+  intros H. unfold redrill_call_pinned. cbv zeta. rewrite redrill_index.
   destruct (Nat.eqb_spec (index_of P maxdd) 0) as [E|E]; [|reflexivity].
   destruct H as [->|H]; [|contradiction]. rewrite redrill_unchanged by assumption. reflexivity.
 Qed.
 
-(* a count left by the first call is reported although the second call's profile never falls below the limit *)
-Theorem redrill_call_stale_count_refuted :
+(* a count left by the first call was reported although the second call's profile never falls below the limit *)
+Theorem redrill_call_pinned_stale_count_refuted :
   exists prev P T maxdd, 0 <= hd 0 P /\ 0 < maxdd <= 1 /\ index_of P maxdd = 0%nat /\
-    rd_P (redrill_call prev P T maxdd) = P /\ rd_count (redrill_call prev P T maxdd) <> 0%nat.
+    rd_P (redrill_call_pinned prev P T maxdd) = P /\ rd_count (redrill_call_pinned prev P T maxdd) <> 0%nat /\
+    rd_count (redrill_call prev P T maxdd) = 0%nat.
 Proof.
   exists 1%nat, [100; 99; 98], [105; 104; 103], (1 # 10).
-  split. cbn. lra. split. lra. split. reflexivity. split. reflexivity. vm_compute. discriminate.
+  split. cbn. lra. split. lra. split. reflexivity. split. reflexivity. split. vm_compute. discriminate. reflexivity.
 Qed.
+
